@@ -297,7 +297,7 @@ func TestVerifC04(t *testing.T) {
 			if i%15 == 7 {
 				for _, seq := range w.GasSweepSeqs(s.R, twin, 6) {
 					tr, err := w.TwinSeq(twin, seq)
-					if err != nil || tr == nil || !tr.Included {
+					if err != nil || tr == nil || !tr.Included || tr.B0.Header.Flags().HasFlag(types.ValidationFinished) {
 						continue
 					}
 					rep.Eval(1)
@@ -321,7 +321,7 @@ func TestVerifC04(t *testing.T) {
 					if tr != nil && tr.B1 != nil {
 						rep.Count(fmt.Sprintf("drain_then_contract_txs_in_block:%d", len(tr.B1.Body.Transactions)), 1)
 					}
-					if err != nil || tr == nil || !tr.Included {
+					if err != nil || tr == nil || !tr.Included || tr.B0.Header.Flags().HasFlag(types.ValidationFinished) {
 						continue
 					}
 					rep.Eval(1)
@@ -396,7 +396,12 @@ func twinConservation(w *World, twin *Replica, rep *verifutil.Report, g *Gen) {
 		rep.Count("twins_forced_past_pool", 1)
 	}
 	l0, l1 := LedgerOf(tr.Post0), LedgerOf(tr.Post1)
-	if l1.Total.Cmp(l0.Total) > 0 {
+	// the end of a validation destroys dust accounts and burns stakes as a function of the balances
+	// the block's transactions leave behind: a transfer out of an account that is cleared without
+	// it legitimately ends with a larger total (the ledger monitor bounds such blocks instead)
+	if tr.B0.Header.Flags().HasFlag(types.ValidationFinished) {
+		rep.Count("twins_on_validation_finishing_blocks(total not compared)", 1)
+	} else if l1.Total.Cmp(l0.Total) > 0 {
 		rep.Violation("tx-mints:"+TxName(g.Tx.Type), fmt.Sprintf("block with one %s tx (%s) ends with a larger total than the same block without it: %v > %v", TxName(g.Tx.Type), g.Kind, l1.Total, l0.Total),
 			map[string]interface{}{"tx": DescribeBlock(tr.B1), "diff": LedgerDiff(l0, l1)})
 	}
